@@ -63,3 +63,46 @@ package interp
 
 //@ func newLexer
 //@   ensures result != nil
+
+// ---- arithmetic evaluator (64-bit two's complement) ----
+
+//@ panicclass runtime value is runtime.Error
+
+//@ wf lexer: self.env != nil
+
+//@ func expand
+//@   mode bv64
+//@   requires yylex is *lexer && yylex.(*lexer) != nil
+//@   ensures x.s == "" ==> result0 == x.n && result1
+
+//@ func calculate
+//@   mode bv64
+//@   faults div shift
+//@   requires yylex is *lexer && yylex.(*lexer) != nil
+//@   ensures x.s == ""
+//@   ensures ok && l.s == "" && r.s == "" && op == "*" ==> x.n == l.n * r.n
+//@   ensures ok && l.s == "" && r.s == "" && op == "/" ==> x.n == l.n / r.n
+//@   ensures ok && l.s == "" && r.s == "" && op == "%" ==> x.n == l.n % r.n
+//@   ensures ok && l.s == "" && r.s == "" && op == "+" ==> x.n == l.n + r.n
+//@   ensures ok && l.s == "" && r.s == "" && op == "-" ==> x.n == l.n - r.n
+//@   ensures ok && l.s == "" && r.s == "" && op == "<<" ==> x.n == l.n << r.n
+//@   ensures ok && l.s == "" && r.s == "" && op == ">>" ==> x.n == l.n >> r.n
+//@   ensures ok && l.s == "" && r.s == "" && op == "&" ==> x.n == l.n & r.n
+//@   ensures ok && l.s == "" && r.s == "" && op == "^" ==> x.n == l.n ^ r.n
+//@   ensures ok && l.s == "" && r.s == "" && op == "|" ==> x.n == l.n | r.n
+//@   ensures l.s == "" && r.s == "" ==> ok
+
+//@ func compare
+//@   mode bv64
+//@   requires yylex is *lexer && yylex.(*lexer) != nil
+//@   ensures x.s == ""
+//@   ensures l.s == "" && r.s == "" && op == "<" ==> x.n == (l.n < r.n ? 1 : 0)
+//@   ensures l.s == "" && r.s == "" && op == ">" ==> x.n == (l.n > r.n ? 1 : 0)
+//@   ensures l.s == "" && r.s == "" && op == "<=" ==> x.n == (l.n <= r.n ? 1 : 0)
+//@   ensures l.s == "" && r.s == "" && op == ">=" ==> x.n == (l.n >= r.n ? 1 : 0)
+//@   ensures l.s == "" && r.s == "" && op == "==" ==> x.n == (l.n == r.n ? 1 : 0)
+//@   ensures l.s == "" && r.s == "" && op == "!=" ==> x.n == (l.n != r.n ? 1 : 0)
+
+//@ func (*ExecEnv).Eval$1
+//@   recovers runtime
+//@   requires l != nil
